@@ -186,3 +186,11 @@ func (t *Ticker) Reset(d Duration) {
 	t.stop = false
 	t.arm()
 }
+
+// Tick as in package time.
+func Tick(d Duration) *vrt.Chan[Time] {
+	if d <= 0 {
+		return nil
+	}
+	return NewTicker(d).C
+}
